@@ -364,6 +364,59 @@ static void run_directed(void)
     }
 }
 
+/* ---- descriptors nobody was given: while one thread makes creates that FAIL in the backend's init (unsupported flat-XOR
+ * shape, word sizes the Jerasure and ISA-L adapters refuse - the plug-in is loaded, init runs, everything is undone), another
+ * thread keeps calling encode and the size query with the descriptor numbers that would be handed out next.  No create ever
+ * succeeds in this mode, so every such call must be refused: an instance is visible to other threads only once create has
+ * returned its descriptor.  (Reads the library's descriptor counter without its lock: ASan build only.) ---- */
+extern int next_backend_desc;
+static atomic_int pr_stop; static atomic_long pr_calls, pr_accepted;
+static void *probe_main(void *v)
+{
+    (void)v; uint8_t data[256]; memset(data, 0x5c, sizeof data);
+    while (!atomic_load(&pr_stop)) {
+        int base = __atomic_load_n(&next_backend_desc, __ATOMIC_RELAXED);
+        for (int d = base + 1; d <= base + 3; d++) {
+            if (d <= 0) continue;
+            char **ed = NULL, **ep = NULL; uint64_t fl = 0;
+            int rc = liberasurecode_encode(d, (char *)data, sizeof data, &ed, &ep, &fl);
+            if (rc == 0) { atomic_fetch_add(&pr_accepted, 1); liberasurecode_encode_cleanup(d, ed, ep); }
+            if (liberasurecode_get_fragment_size(d, 1000) >= 0) atomic_fetch_add(&pr_accepted, 1);
+            if (liberasurecode_get_minimum_encode_size(d) >= 0) atomic_fetch_add(&pr_accepted, 1);
+            atomic_fetch_add(&pr_calls, 3);
+        }
+    }
+    return NULL;
+}
+static void run_probe(void)
+{
+    int rounds = MO.thorough ? 64 : 8;
+    for (int round = 0; round < rounds; round++) {
+        if (!mon_case("probe-unissued-descriptors|round=%d", round)) continue;
+        atomic_store(&pr_stop, 0); atomic_store(&pr_calls, 0); atomic_store(&pr_accepted, 0);
+        pthread_t th; pthread_create(&th, NULL, probe_main, NULL);
+        long failed = 0, succeeded = 0;
+        for (int i = 0; i < (MO.thorough ? 6000 : 2500); i++) {
+            struct ec_args a; memset(&a, 0, sizeof a); int be;
+            switch (i % 3) {
+            case 0: be = EC_BACKEND_FLAT_XOR_HD; a.k = 10; a.m = 5; a.hd = 5; break;
+            case 1: be = EC_BACKEND_JERASURE_RS_VAND; a.k = 4; a.m = 2; a.w = 7; a.hd = 2; break;
+            default: be = isal_ok ? EC_BACKEND_ISA_L_RS_VAND : EC_BACKEND_FLAT_XOR_HD; a.k = isal_ok ? 4 : 7; a.m = isal_ok ? 2 : 7; a.w = isal_ok ? 4 : 0; a.hd = isal_ok ? 2 : 3; break;
+            }
+            a.ct = CHKSUM_NONE;
+            if (!liberasurecode_backend_available((ec_backend_id_t)be)) continue;
+            int d = liberasurecode_instance_create((ec_backend_id_t)be, &a);
+            if (d > 0) { succeeded++; liberasurecode_instance_destroy(d); } else failed++;
+        }
+        atomic_store(&pr_stop, 1); pthread_join(th, NULL);
+        mon_count("evaluations", atomic_load(&pr_calls)); mon_count("probe_calls_on_unissued_descriptors", atomic_load(&pr_calls)); mon_count("creates_failing_in_backend_init", failed);
+        if (succeeded) mon_logf("HARNESS probe mode: %ld creates meant to fail succeeded", succeeded);
+        else if (atomic_load(&pr_accepted)) mon_viol("C18", "unissued-descriptor-accepted", "%ld of %ld calls through descriptor numbers that no create had returned were accepted while creates were failing in the backend's init", atomic_load(&pr_accepted), atomic_load(&pr_calls));
+        mon_distinct("nontrivial", mon_hash_u64((uint64_t)round, 0x1866));
+        mon_end();
+    }
+}
+
 int main(int argc, char **argv)
 {
     mon_init(argc, argv);
@@ -375,6 +428,7 @@ int main(int argc, char **argv)
     else if (!strcmp(MO.mode, "own")) run_stress(1);
     else if (!strcmp(MO.mode, "mixed")) run_stress(2);
     else if (!strcmp(MO.mode, "directed")) run_directed();
+    else if (!strcmp(MO.mode, "probe")) run_probe();
     else { run_stress(0); run_stress(1); run_stress(2); run_directed(); }
     mon_finish();
     return 0;
